@@ -124,12 +124,57 @@ def bare_string_twin(s: str, a: List[int]) -> bool:
     return True
 
 
+def second_product_replaces_first(a: List[int], b: List[int]) -> bool:
+    """
+    pre: 1 <= len(a) <= 2 and 1 <= len(b) <= 3
+    pre: len(set(a)) == len(a) and len(set(b)) == len(b)
+    post: _
+    """
+    opm = hyruns.OptionManager("x")
+    opm.from_cartesian_product(u=a)
+    opm.from_cartesian_product(v=b)
+    # a second call defines the tasks afresh: only the options of that call, every value once
+    fresh = hyruns.OptionManager("x")
+    fresh.from_cartesian_product(v=b)
+    return opm.ntasks == len(b) and all(set(t.keys()) == {"v"} for t in opm.tasks) and [t["v"] for t in opm.tasks] == list(b) and opm == fresh and fresh == opm
+
+
+def second_product_twin(a: List[int], b: List[int]) -> bool:
+    """
+    pre: 1 <= len(a) <= 2 and 1 <= len(b) <= 3
+    post: not _
+    """
+    return True
+
+
+def roundtrip_keeps_task_order_beyond_ten(a: List[int], n: int) -> bool:
+    """
+    pre: 11 <= n <= 13 and len(a) == n
+    pre: all(a[i] < a[i + 1] for i in range(len(a) - 1))
+    post: _
+    """
+    opm = hyruns.OptionManager("x")
+    opm.from_cartesian_product(u=a)
+    opm2 = hyruns.OptionManager.from_dict(opm.to_dict())
+    return opm2.ntasks == n and [t["u"] for t in opm2.tasks] == list(a) and opm == opm2 and opm2 == opm
+
+
+def roundtrip_order_twin(a: List[int], n: int) -> bool:
+    """
+    pre: 11 <= n <= 13 and len(a) == n
+    post: not _
+    """
+    return True
+
+
 CONTRACTS = [
     dict(name='cartesian_product_and_roundtrip', twin='cartesian_product_twin',
          what='OptionManager.from_cartesian_product enumerates every combination once; to_dict/from_dict equal in both directions'),
     dict(name='roundtrip_with_renamed_keys', twin='roundtrip_renamed_twin', what='dictionary round trip with renamed keys'),
     dict(name='inequality_is_detected', twin='inequality_twin', what='managers with different option lists compare unequal'),
     dict(name='bare_string_option', twin='bare_string_twin', what='a bare string option of 1-3 characters is a single option value'),
+    dict(name='second_product_replaces_first', twin='second_product_twin', what='a second from_cartesian_product call on the same manager defines the tasks afresh'),
+    dict(name='roundtrip_keeps_task_order_beyond_ten', twin='roundtrip_order_twin', what='dictionary round trip keeps the task order for 11-13 tasks'),
     dict(name='find_returns_matching_tasks', twin='find_twin', what='OptionManager.find returns exactly the tasks whose option equals the value',
          timeout={'quick': 30, 'thorough': 240}),
 ]
